@@ -145,3 +145,52 @@ func VerifC08_index_per_origin_on_one_attester() {
 	vAssert(vBytesEq(gotA, wantA), "first-id-still-intact-after-second-call")
 	vReach("two-origins")
 }
+
+// two origins registered on ONE issuer with their own index keys, under names that differ in
+// anything at all (a trailing dot, case, one byte): a request for the second one is answered with
+// the second one's index key, i.e. the attester derives the formula's value for that key
+func VerifC08_two_origins_on_one_issuer() {
+	vUnwind(110)
+	vUseModels("ecapi")
+	secret := vBytes("client_secret", 48, 48)
+	vAssume(secret[0] != 0)
+	keyA, keyB := vBytes("index_key_a", 48, 48), vBytes("index_key_b", 48, 48)
+	vAssume(keyA[0] != 0 && keyB[0] != 0 && !vBytesEq(keyA, keyB))
+	nameA := vBytesC("origin_a", 1, 2)
+	vAssume(nameA[len(nameA)-1] != 0)
+	var nameB []byte
+	if vBool("b_is_a_plus_one_byte") {
+		nameB = append(append([]byte{}, nameA...), vByte("suffix"))
+		vAssume(nameB[len(nameB)-1] != 0)
+	} else {
+		nameB = vBytesC("origin_b", 1, 2)
+		vAssume(nameB[len(nameB)-1] != 0 && !vBytesEq(nameA, nameB))
+	}
+	issuer := t3Issuer()
+	ka, err := ecdsa.CreateKey(elliptic.P384(), keyA)
+	vAssume(err == nil)
+	kb, err := ecdsa.CreateKey(elliptic.P384(), keyB)
+	vAssume(err == nil)
+	vAssume(issuer.AddOriginWithIndexKey(string(nameA), ka) == nil)
+	vAssume(issuer.AddOriginWithIndexKey(string(nameB), kb) == nil)
+	want, _ := c08Spec(secret, keyB)
+
+	blind := vBytes("blind", 48, 48)
+	vAssume(blind[0] != 0)
+	client := NewRateLimitedClientFromSecret(secret)
+	st, err := client.CreateTokenRequest(vBytesC("challenge", 0, 0), vBytes("nonce", 32, 32), blind, issuer.TokenKeyID(), issuer.TokenKey(), string(nameB), issuer.NameKey())
+	vAssume(err == nil)
+	_, brk, err := issuer.Evaluate(st.Request().Marshal())
+	vAssert(err == nil, "second-origin-served")
+	if err != nil {
+		return
+	}
+	cache := &c06Cache{m: map[string]*ClientState{}}
+	attester := NewRateLimitedAttester(cache)
+	anon := []byte("aaaaaaaa")
+	vAssume(attester.VerifyRequest(*st.Request(), blind, st.ClientKey(), anon) == nil)
+	idx, err := attester.FinalizeIndex(st.ClientKey(), blind, brk, anon)
+	vAssert(err == nil, "index-computed")
+	vAssert(vBytesEq(idx, want), "second-origin-gets-the-id-of-its-own-index-key")
+	vReach("two-origins-one-issuer")
+}
